@@ -369,7 +369,7 @@ class PartiallySerializableDesignerPolicy(
   def _restore_designer(
       self, designer_metadata: vz.Metadata
   ) -> vza.PartiallySerializableDesigner:
-    designer = self._designer_factory(self._problem_statement)
+    designer = self._designer_factory(self._problem_statement, seed=self._seed)
     designer.load(designer_metadata)
     return designer
 
